@@ -254,8 +254,10 @@ do_email (long *v, int nv)
     const long *b = v + 3, *x = v + 3 + n;
     int at = (int) x[0], c12 = (int) x[1];
     int rcs[2][4], fls[2][4], rcl[4];
-    if (nv != 3 + n + 2 + 40) die ("bad email vector");
-    x += 2;
+    const long *le;
+    if (nv != 3 + n + 2 + 4 + 40) die ("bad email vector");
+    le = x + 2;
+    x += 6;
     for (int m = 0; m < 4; m++) rcl[m] = 1;
     for (int tld = 0; tld < 2; tld++) for (int m = 0; m < 4; m++) {
         const long *e = x + 5 * (tld * 4 + m);
@@ -292,7 +294,8 @@ do_email (long *v, int nv)
         if (eexp == 1 && (rc < 0 || (erc != NOPIN && rc != erc))) bad = 2;
         if (eexp == 0 && (rc >= 0 || (erc != NOPIN && rc != erc))) bad = 2;
         if (bad == 2)
-            viol ("email", tld ? "decision-tld" : "decision", mode, ob, b, n, erc == NOPIN ? eexp : erc, rc, mrc);
+            viol ("email", (rc >= 0 && le[m] == 0) ? "decision-local" : tld ? "decision-tld" : "decision", mode, ob, b, n,
+                  erc == NOPIN ? eexp : erc, rc, mrc);
         else if (eexp != 2 && eflag != -1 && fl != eflag)
             viol ("email", "flag", mode, ob * 2 + tld, b, n, eflag, fl, rc);
         else if (bad == 1 || !(fl == 0 || fl == 1 || fl == 2 || fl == 4) || (rc >= 0 && fl == 0) || rc > 9
